@@ -520,9 +520,13 @@ func (hm *HostMap) unlockedDeleteHostInfo(hostinfo *HostInfo) bool {
 		}
 	}
 
-	delete(hm.Indexes, hostinfo.localIndexId)
-	if len(hm.Indexes) == 0 {
-		hm.Indexes = map[uint32]*HostInfo{}
+	// Same for the local index: a hostinfo that was already removed can be handed to us again (a reader
+	// that looked it up before the removal), and by then its index may belong to a newer tunnel.
+	if hostinfo2, ok := hm.Indexes[hostinfo.localIndexId]; ok && hostinfo2 == hostinfo {
+		delete(hm.Indexes, hostinfo.localIndexId)
+		if len(hm.Indexes) == 0 {
+			hm.Indexes = map[uint32]*HostInfo{}
+		}
 	}
 
 	if hm.l.Enabled(context.Background(), slog.LevelDebug) {
